@@ -23,13 +23,13 @@ import (
 	"github.com/insomniacslk/dhcp/dhcpv6/nclient6"
 )
 
-type mCaller struct {
+type cliMCaller struct {
 	xid      int
 	matchNil bool
 	gated    bool
 }
 
-type mEv struct {
+type cliMEv struct {
 	kind string // call arr can clo rel adv tick
 	i    int    // caller index (call, can, rel)
 	ok   bool   // arr
@@ -38,16 +38,16 @@ type mEv struct {
 	k    int64  // rel count / adv ns
 }
 
-type mScenario struct {
+type cliMScenario struct {
 	v6      bool
 	cap     int
 	T       int64
 	n       int
-	callers []mCaller
-	groups  [][]mEv
+	callers []cliMCaller
+	groups  [][]cliMEv
 }
 
-func (c mCaller) String() string {
+func (c cliMCaller) String() string {
 	m := "tag"
 	if c.matchNil {
 		m = "nil"
@@ -58,7 +58,7 @@ func (c mCaller) String() string {
 	return fmt.Sprintf("%d:%s", c.xid, m)
 }
 
-func (e mEv) String() string {
+func (e cliMEv) String() string {
 	switch e.kind {
 	case "call", "can":
 		return fmt.Sprintf("%s.%d", e.kind, e.i)
@@ -76,7 +76,7 @@ func (e mEv) String() string {
 	return e.kind
 }
 
-func (sc mScenario) line() string {
+func (sc cliMScenario) line() string {
 	op := "client4m"
 	if sc.v6 {
 		op = "client6m"
@@ -99,14 +99,14 @@ func (sc mScenario) line() string {
 	return fmt.Sprintf("%s cap=%d T=%d n=%d c=%s ev=%s", op, sc.cap, sc.T, sc.n, strings.Join(cs, ","), ev)
 }
 
-func parseMScenario(op string, args []string) mScenario {
-	sc := mScenario{v6: op == "client6m"}
+func cliParseMScenario(op string, args []string) cliMScenario {
+	sc := cliMScenario{v6: op == "client6m"}
 	sc.cap = atoi(fieldOf(args, "cap"))
 	sc.T = parseInt64(fieldOf(args, "T"))
 	sc.n = atoi(fieldOf(args, "n"))
 	for _, c := range strings.Split(fieldOf(args, "c"), ",") {
 		p := strings.Split(c, ":")
-		mc := mCaller{xid: atoi(p[0])}
+		mc := cliMCaller{xid: atoi(p[0])}
 		m := p[1]
 		if m == "tagg" || m == "nilg" {
 			mc.gated = true
@@ -120,10 +120,10 @@ func parseMScenario(op string, args []string) mScenario {
 		return sc
 	}
 	for _, g := range strings.Split(ev, ";") {
-		var grp []mEv
+		var grp []cliMEv
 		for _, e := range strings.Split(g, "+") {
 			p := strings.Split(e, ".")
-			me := mEv{kind: p[0]}
+			me := cliMEv{kind: p[0]}
 			switch p[0] {
 			case "call", "can":
 				me.i = atoi(p[1])
@@ -147,9 +147,9 @@ func parseMScenario(op string, args []string) mScenario {
 	return sc
 }
 
-const mXidBase = 0x00a000
+const cliMXidBase = 0x00a000
 
-type mInjected struct {
+type cliMInjected struct {
 	idx   int
 	group int
 	ok    bool
@@ -157,7 +157,7 @@ type mInjected struct {
 	tag   int
 }
 
-type mCallRes struct {
+type cliMCallRes struct {
 	called    bool
 	callGroup int
 	returned  bool
@@ -166,14 +166,14 @@ type mCallRes struct {
 	tx        int
 }
 
-type mResult struct {
+type cliMResult struct {
 	status   string
-	calls    []mCallRes
+	calls    []cliMCallRes
 	closeAt  int // group index, -1
-	injected []mInjected
+	injected []cliMInjected
 }
 
-func mOutcome(idx int, tagged, isNil bool, err error, ctx context.Context, noResp error) string {
+func cliMOutcome(idx int, tagged, isNil bool, err error, ctx context.Context, noResp error) string {
 	switch {
 	case err == nil && isNil:
 		return "nilnil"
@@ -192,16 +192,16 @@ func mOutcome(idx int, tagged, isNil bool, err error, ctx context.Context, noRes
 	}
 }
 
-var badKinds4 = []string{"ig", "io", "ih", "ie"}
-var badKinds6 = []string{"ig", "io", "ie"}
+var cliBadKinds4 = []string{"ig", "io", "ih", "ie"}
+var cliBadKinds6 = []string{"ig", "io", "ie"}
 
-func runMulti(sc mScenario) mResult {
-	var inner mResult
+func cliRunMulti(sc cliMScenario) cliMResult {
+	var inner cliMResult
 	status := inBubble(10*time.Second, func() {
 		r := &inner
 		r.closeAt = -1
 		n := len(sc.callers)
-		r.calls = make([]mCallRes, n)
+		r.calls = make([]cliMCallRes, n)
 		start := time.Now()
 		now := func() int64 { return int64(time.Since(start)) }
 		conn := cli_newScriptConn(now)
@@ -229,7 +229,7 @@ func runMulti(sc mScenario) mResult {
 		closeCalled := false
 		startCall := func(i int) {
 			mc := sc.callers[i]
-			x := uint32(mXidBase + mc.xid)
+			x := uint32(cliMXidBase + mc.xid)
 			accept := func(class byte) bool {
 				if mc.gated {
 					<-gates[i]
@@ -245,7 +245,7 @@ func runMulti(sc mScenario) mResult {
 					}
 					p, err := c6.SendAndRead(ctxs[i], dests[i], req6(x), m)
 					_, idx, ok := tagOf6(p)
-					o = mOutcome(idx, ok, p == nil, err, ctxs[i], nclient6.ErrNoResponse)
+					o = cliMOutcome(idx, ok, p == nil, err, ctxs[i], nclient6.ErrNoResponse)
 				} else {
 					var m nclient4.Matcher
 					if !mc.matchNil || mc.gated {
@@ -253,7 +253,7 @@ func runMulti(sc mScenario) mResult {
 					}
 					p, err := c4.SendAndRead(ctxs[i], dests[i], req4(x), m)
 					_, idx, ok := tagOf4(p)
-					o = mOutcome(idx, ok, p == nil, err, ctxs[i], nclient4.ErrNoResponse)
+					o = cliMOutcome(idx, ok, p == nil, err, ctxs[i], nclient4.ErrNoResponse)
 				}
 				mu.Lock()
 				outcomes[i], done[i] = o, true
@@ -299,7 +299,7 @@ func runMulti(sc mScenario) mResult {
 						startCall(e.i)
 					}
 				case "arr":
-					x := uint32(mXidBase + e.xid)
+					x := uint32(cliMXidBase + e.xid)
 					var b []byte
 					if e.ok {
 						kind := "rej"
@@ -308,11 +308,11 @@ func runMulti(sc mScenario) mResult {
 						}
 						b = datagramFor(sc.v6, kind, x, inj)
 					} else if sc.v6 {
-						b = datagramFor(true, badKinds6[inj%len(badKinds6)], x, inj)
+						b = datagramFor(true, cliBadKinds6[inj%len(cliBadKinds6)], x, inj)
 					} else {
-						b = datagramFor(false, badKinds4[inj%len(badKinds4)], x, inj)
+						b = datagramFor(false, cliBadKinds4[inj%len(cliBadKinds4)], x, inj)
 					}
-					r.injected = append(r.injected, mInjected{idx: inj, group: g, ok: e.ok, xid: e.xid, tag: e.tag})
+					r.injected = append(r.injected, cliMInjected{idx: inj, group: g, ok: e.ok, xid: e.xid, tag: e.tag})
 					inj++
 					conn.inject(b)
 				case "can":
@@ -368,13 +368,13 @@ func runMulti(sc mScenario) mResult {
 		synctest.Wait()
 	})
 	if status == "hang" {
-		return mResult{status: "hang"}
+		return cliMResult{status: "hang"}
 	}
 	inner.status = status
 	return inner
 }
 
-func (r mResult) canon() string {
+func (r cliMResult) canon() string {
 	if r.status == "hang" {
 		return "hang"
 	}
@@ -397,16 +397,16 @@ func (r mResult) canon() string {
 	return "ok " + s
 }
 
-func execMulti(op string, args []string) string {
+func cliExecMulti(op string, args []string) string {
 	switch op {
 	case "client4m", "client6m":
-		return runMulti(parseMScenario(op, args)).canon()
+		return cliRunMulti(cliParseMScenario(op, args)).canon()
 	}
 	return "bad-op"
 }
 
-// compareSetOrWild: "ok *" = the model gave up enumerating (too many interleavings).
-func compareSetOrWild(goOut, modelOut string) bool {
+// cliCompareSetOrWild: "ok *" = the model gave up enumerating (too many interleavings).
+func cliCompareSetOrWild(goOut, modelOut string) bool {
 	if modelOut == "ok *" && strings.HasPrefix(goOut, "ok ") {
 		return true
 	}
